@@ -223,3 +223,55 @@ def run_defaultset(prog, ctx=None):
     if not res.counters.get("sites"):
         raise Broken("DEFAULTSET: no test of the Default flag next to a store of the default id found")
     return res
+
+
+def run_finipaths(prog, ctx=None):
+    """FINIPATHS: a teardown function (`*_fini`) deals with every member it releases on every way through: for each member of
+    the object (first parameter) that the function touches at all, no path from the entry to the return avoids all the blocks
+    that mention that member (an early return in front of the release of the fallback handler or the context leaves them alive)."""
+    res = Result("FINIPATHS")
+    files = set(ctx.get("files", [])) if ctx and ctx.get("files") else None
+    n = 0
+    for f in sorted(prog.functions.values(), key=lambda f: (f.file, f.line, f.qn)):
+        if f.nocfg or not f.name.endswith("_fini") or not f.params or (files and f.file not in files):
+            continue
+        pid = f.params[0]["id"]
+        mention = {}
+        for bid, blk in f.blocks.items():
+            trees = list(blk.el)
+            if blk.term and isinstance(blk.term.get("cond"), dict):
+                trees.append(blk.term["cond"])
+            for t in trees:
+                for m in walk(t):
+                    if m.get("k") == "mem" and m.get("arrow"):
+                        b = strip(m["b"], all_casts=True)
+                        if b.get("k") == "ref" and b["d"].get("id") == pid:
+                            mention.setdefault(m["f"], set()).add(bid)
+        # members that are released: they occur in the callee or the arguments of a call
+        released = set()
+        for b_, i_, e in f.elements():
+            if e.get("k") == "call":
+                for part in [e.get("callee")] + list(e.get("args", [])):
+                    if isinstance(part, dict):
+                        ps = strip(part, all_casts=True)
+                        if ps.get("k") == "un" and ps.get("op") == "&":
+                            continue        # the address of a member handed to a helper: working storage, not a resource of its own
+                        for m in walk(part):
+                            if m.get("k") == "mem" and m.get("arrow"):
+                                bb = strip(m["b"], all_casts=True)
+                                if bb.get("k") == "ref" and bb["d"].get("id") == pid:
+                                    released.add(m["f"])
+        mention = {k: v for k, v in mention.items() if k in released}
+        exits = {bid for bid, blk in f.blocks.items() if bid == f.exit or any(e.get("k") == "ret" for e in blk.el) or not [s for s in blk.succ if s is not None]}
+        for mem, blocks in sorted(mention.items()):
+            n += 1
+            if f.entry in blocks:
+                ok = True
+            else:
+                reach = {f.entry} | set(f.reachable_from(f.entry, avoid=blocks))
+                ok = not (reach & exits)
+            res.ob("%s:%s" % (f.qn, mem), ok, f, f.line,
+                   "" if ok else "%s: a path from the entry to the return never looks at ->%s, which other paths of the teardown release" % (f.qn, mem))
+    if n < 10:
+        raise Broken("FINIPATHS: only %d members in teardown functions" % n)
+    return res
